@@ -259,6 +259,8 @@ pub struct Parser {
     types: HashSet<String>,
     /// names declared with a template header: only these are followed by template arguments
     templates: HashSet<String>,
+    /// type names hidden by a variable or parameter of the same name in the enclosing blocks
+    shadowed: Vec<String>,
 }
 
 type PR<T> = Result<T, String>;
@@ -284,7 +286,7 @@ pub fn builtin_type(name: &str) -> Option<TyE> {
 
 impl Parser {
     pub fn new(tokens: Vec<Tok>) -> Parser {
-        Parser { t: tokens, p: 0, types: HashSet::new(), templates: HashSet::new() }
+        Parser { t: tokens, p: 0, types: HashSet::new(), templates: HashSet::new(), shadowed: Vec::new() }
     }
 
     fn peek(&self) -> &Tok {
@@ -369,7 +371,7 @@ impl Parser {
             TyE::TrueType
         } else if let Some(t) = builtin_type(&bare) {
             t
-        } else if self.types.contains(&bare) {
+        } else if self.types.contains(&bare) && !self.shadowed.contains(&bare) {
             TyE::Named(bare)
         } else {
             return None;
@@ -655,6 +657,13 @@ impl Parser {
         if self.eat_p(":") {
             let _ = self.ident()?;
         }
+        // parameters hide types of the same name inside the body
+        let mark = self.shadowed.len();
+        for p in &params {
+            if self.types.contains(&p.name) {
+                self.shadowed.push(p.name.clone());
+            }
+        }
         let mut has_body = true;
         let body = if self.eat_p(";") {
             has_body = false;
@@ -663,17 +672,20 @@ impl Parser {
             self.expect_p("{")?;
             self.block_rest()?
         };
+        self.shadowed.truncate(mark);
         Ok(FuncD { name, ret, params, body, is_template, attrs, has_body })
     }
 
     fn block_rest(&mut self) -> PR<Vec<Stm>> {
         let mut v = Vec::new();
+        let mark = self.shadowed.len();
         while !self.is_p("}") {
             if matches!(self.peek(), Tok::Eof) {
                 return Err("unterminated block".into());
             }
             v.push(self.statement()?);
         }
+        self.shadowed.truncate(mark);
         self.expect_p("}")?;
         Ok(v)
     }
@@ -697,6 +709,10 @@ impl Parser {
             let name = self.ident()?;
             let dims = self.dims()?;
             let init = if self.eat_p("=") { Some(self.initializer()?) } else { None };
+            // from here on the variable hides a type of the same name
+            if self.types.contains(&name) {
+                self.shadowed.push(name.clone());
+            }
             ds.push(Declarator { name, dims, init });
             if !self.eat_p(",") {
                 break;
@@ -917,7 +933,7 @@ impl Parser {
 
     fn type_at_offset(&self, k: usize) -> Option<(TyE, usize)> {
         // type_at works relative to self.p: emulate an offset
-        let view = ParserView { t: &self.t, p: self.p + k, types: &self.types };
+        let view = ParserView { t: &self.t, p: self.p + k, types: &self.types, shadowed: &self.shadowed };
         view.type_at()
     }
 
@@ -1080,6 +1096,7 @@ struct ParserView<'a> {
     t: &'a [Tok],
     p: usize,
     types: &'a HashSet<String>,
+    shadowed: &'a [String],
 }
 
 impl ParserView<'_> {
@@ -1111,7 +1128,7 @@ impl ParserView<'_> {
             TyE::TrueType
         } else if let Some(t) = builtin_type(&bare) {
             t
-        } else if self.types.contains(&bare) {
+        } else if self.types.contains(&bare) && !self.shadowed.contains(&bare) {
             TyE::Named(bare)
         } else {
             return None;
